@@ -146,7 +146,8 @@ fn main() {
             let vs = num(&m, "verif-seed").unwrap_or_else(|| harness_error("--verif-seed"));
             let from = num(&m, "from").unwrap_or(0);
             let to = num(&m, "to").unwrap_or_else(|| harness_error("--to"));
-            let out = c15::batch(vs, from, to, m.get("hashes").map(String::as_str));
+            // default: one fresh process per run; --in-process is for measuring the difference only
+            let out = c15::batch(vs, from, to, m.get("hashes").map(String::as_str), !m.contains_key("in-process"));
             println!("{}", serde_json::to_string(&out).unwrap());
             std::process::exit(i32::from(out.violating_runs > 0));
         }
